@@ -42,7 +42,7 @@ func c15ShapesSchema() *c15Schema {
 	mid := &c15Entity{Name: "Mid", Parents: []string{"Top"}, Shape: sortAttrs([]sAttr{req("noLeaf"), req("noTop")})}
 	leaf := &c15Entity{Name: "Leaf", Parents: []string{"Mid"}, Shape: sortAttrs([]sAttr{req("noMid"), req("noTop")})}
 	// one entity type with a required attribute of every kind of type (typing family)
-	typed := &c15Entity{Name: "Typed", Tags: scalarT(tString), Shape: sortAttrs(c15TypedAttrs())}
+	typed := &c15Entity{Name: "Typed", Tags: scalarT(tString), Shape: sortAttrs(append(c15TypedAttrs(), c15TypedExtra()...))}
 	return &c15Schema{
 		Ents: []*c15Entity{{Name: "Admin"}, album, leaf, mid, photo, root, top, typed, user, {Name: "Zine"}},
 		Acts: []*sAction{
@@ -61,6 +61,19 @@ func c15TypedAttrs() []sAttr {
 		a("sse", setT(setT(entT("Album")))), a("ssl", setT(setT(scalarT(tLong)))),
 		a("r", recT(sAttr{Name: "x", T: scalarT(tLong)}, sAttr{Name: "e", T: entT("Album")})), a("sr", setT(recT(sAttr{Name: "x", T: scalarT(tLong)}))),
 		a("d", scalarT(tDecimal)), a("dt", scalarT(tDatetime)), a("du", scalarT(tDuration)), a("ip", scalarT(tIP)),
+	}
+}
+
+// c15TypedExtra: further attributes of Typed whose types are *different* from a base attribute's
+// type but share values with it (two empty sets are equal whatever their element types, two
+// records with only optional attributes may both be empty): the eqguard family compares them.
+func c15TypedExtra() []sAttr {
+	a := func(n string, t *c15Type) sAttr { return sAttr{Name: n, T: t} }
+	o := func(n string, k tk) sAttr { return sAttr{Name: n, T: scalarT(k), Opt: true} }
+	return []sAttr{
+		a("e2", entT("Zine")), a("se2", setT(entT("Zine"))), a("sse2", setT(setT(entT("Zine")))),
+		a("r2", recT(sAttr{Name: "x", T: scalarT(tLong)}, sAttr{Name: "e", T: entT("Zine")})), a("sr2", setT(recT(sAttr{Name: "y", T: scalarT(tString)}))),
+		a("ro1", recT(o("p", tLong))), a("ro2", recT(o("q", tString))), a("sro", setT(recT(o("q", tString)))),
 	}
 }
 
@@ -355,6 +368,37 @@ func c15Shapes() []c15shape {
 		for _, fn := range unExt {
 			fn := fn
 			out = append(out, c15shape{wrap(func() *model.Expr { return model.Ext(fn, opd(x)) }), "Typed", "typing", nil})
+		}
+	}
+
+	// ---- eqguard: an equality between two attributes guards a tail that is ill-typed
+	// (String < Long). The validator may only accept such a policy if the equality can never hold;
+	// for types that merely look disjoint (sets over different element types, records that differ
+	// in optional attributes) conforming data makes both sides equal (both empty) and the tail runs.
+	{
+		var all []string
+		for _, a := range append(c15TypedAttrs(), c15TypedExtra()...) {
+			all = append(all, a.Name)
+		}
+		bad := func() *model.Expr { return model.Bin(model.OLt, opd("s"), L(model.Long(3))) }
+		for _, x := range all {
+			for _, y := range all {
+				if x == y {
+					continue
+				}
+				x, y := x, y
+				eq := func() *model.Expr { return model.Bin(model.OEq, opd(x), opd(y)) }
+				ne := func() *model.Expr { return model.Bin(model.ONe, opd(x), opd(y)) }
+				out = append(out,
+					c15shape{when(and(eq(), bad())), "Typed", "eqguard", nil},
+					c15shape{when(or(ne(), bad())), "Typed", "eqguard", nil},
+					c15shape{when(model.If(eq(), bad(), tr)), "Typed", "eqguard", nil},
+					c15shape{[]model.Cond{{When: false, Body: or(ne(), bad())}}, "Typed", "eqguard", nil},
+					c15shape{when(or(not(eq()), bad())), "Typed", "eqguard", nil},
+					c15shape{when(and(model.Bin(model.OEq, model.SetE(opd(x)), model.SetE(opd(y))), bad())), "Typed", "eqguard", nil},
+					c15shape{when(and(model.Bin(model.OContains, model.SetE(opd(x)), opd(y)), bad())), "Typed", "eqguard", nil},
+				)
+			}
 		}
 	}
 
